@@ -15,6 +15,7 @@ import (
 	"crypto/sha1"
 	"fmt"
 	"os"
+	"sort"
 	"strconv"
 
 	"github.com/miekg/dns"
@@ -52,6 +53,8 @@ func main() {
 		reexec(os.Args[3], os.Args[4])
 	case "len":
 		lenReplay(os.Args[3])
+	case "lenreexec":
+		lenReexec(os.Args[3], os.Args[4])
 	case "lenrec":
 		n, _ := strconv.Atoi(os.Args[4])
 		lenRecord(os.Args[3], n)
@@ -88,6 +91,16 @@ func replay(path string) {
 		}
 	})
 	sum.Nontrivial = len(seen)
+	// registry types the layout does not describe (must be reported, never silently skipped)
+	missing := []string{}
+	for t := range dns.TypeToRR {
+		if !L.Known(int(t)) && int(t) != wire.PrivType {
+			missing = append(missing, dns.Type(t).String())
+		}
+	}
+	sort.Strings(missing)
+	sum.Note("registry_types_without_layout", missing)
+	sum.Note("registry_types", len(dns.TypeToRR)-1) // minus the private type registered by the harness
 	sum.Print()
 }
 
@@ -154,8 +167,8 @@ func diffMsg(got, want *wire.Msg, skipFields bool) (string, string) {
 func diffRR(g, w *wire.RR, skipFields bool) (string, string) {
 	k := L.KeyOf(w)
 	if wire.Canon(g.Name) != wire.Canon(w.Name) || g.Type != w.Type || g.Class != w.Class || wire.Canon(g.Ttl) != wire.Canon(w.Ttl) || g.Nodata != w.Nodata {
-		return k, fmt.Sprintf("record header/nodata %s %d %d %v %v, spec %s %d %d %v %v", wire.Canon(g.Name), g.Type, g.Class, g.Ttl, g.Nodata,
-			wire.Canon(w.Name), w.Type, w.Class, w.Ttl, w.Nodata)
+		return k, fmt.Sprintf("record header/nodata %s %d %d %s %v, spec %s %d %d %s %v", wire.Canon(g.Name), g.Type, g.Class, wire.Canon(g.Ttl), g.Nodata,
+			wire.Canon(w.Name), w.Type, w.Class, wire.Canon(w.Ttl), w.Nodata)
 	}
 	if w.Nodata || skipFields {
 		return "", ""
